@@ -293,7 +293,11 @@ pub fn gen_numeral(rng: &mut Rng) -> String {
         }
         if rng.chance(1, 16) {
             // exponents at the edge of the 64-bit scale range (and beyond)
-            let edges: [&str; 16] = [
+            let edges: [&str; 20] = [
+                "170141183460469231731687303715884105727",
+                "170141183460469231731687303715884105728",
+                "170141183460469231731687303715884105726",
+                "340282366920938463463374607431768211455",
                 "9223372036854775807",
                 "9223372036854775808",
                 "9223372036854775809",
